@@ -137,6 +137,8 @@ def variants_for(sc, rng, tier):
     vs = [("hash", {"PYTHONHASHSEED": "1"}, {}), ("hash", {"PYTHONHASHSEED": "4242"}, {}), ("hash", {"PYTHONHASHSEED": "random"}, {}),
           ("clock", {}, {"vclock": {"pc_step": 0.0, "wall": 1.0e9, "wall_step": 0.0, "global_wall": 1.0e9}}),
           ("clock", {}, {"vclock": {"pc_step": 0.0137, "wall": 4.0e9, "wall_step": -3.5}}),
+          # a wall clock that leaps ahead at every reading (a stalled machine): whatever measures itself with it looks very slow
+          ("clock", {}, {"vclock": {"pc_step": 0.0, "wall": 1.0e9, "wall_step": 1.0e6}}),
           ("warm", {}, {"warm": True}),
           ("warm-perturbed", {}, {"warm_perturbed": True}),
           ("warm-recycled", {}, {"warm_recycled": True}),
